@@ -126,7 +126,8 @@ class Histories:
         out = {}
         f = s.forces.get(t)
         out["forces"] = None if f is None else [float(f[i]) for i in range(len(f))]
-        out["frame_forces_is_store"] = getattr(fr, "forces", None) is f
+        ff_ = getattr(fr, "forces", None)
+        out["frame_forces_is_store"] = ff_ is f or (ff_ is not None and f is not None and len(ff_) == len(f) and all(float(ff_[i]) == float(f[i]) for i in range(len(f))))
         df, ex = fsutil.call(fr.get_tensions, with_border=True)
         out["table"] = None if ex else [[int(a), float(b)] for a, b in zip(df["id"], df["stress"])]
         dfi, ex = fsutil.call(fr.get_tensions)
@@ -202,7 +203,7 @@ class Histories:
                     viol.append({"what": "per-frame tension store does not hold one value per internal interface under the frame's key", "detail": {"frame": t, "forces": forces}})
                     continue
                 if not rep["frame_forces_is_store"]:
-                    viol.append({"what": "Frame.forces is not the object stored under ForSys.forces[t]", "detail": {"frame": t}})
+                    viol.append({"what": "Frame.forces differs from what is stored under ForSys.forces[t]", "detail": {"frame": t}})
                 if rep["table_internal_ids"] != rep["internal_ids"]:
                     viol.append({"what": "tension table does not list exactly the internal interfaces in order", "detail": {"frame": t}})
                 for i, beid in enumerate(rep["internal_ids"]):
